@@ -306,7 +306,10 @@ C15_KINDS = {0: 'Score', 1: 'Error', 2: 'TestResult', 3: 'TestResults<Score>', 4
              7: 'TestResults::from', 8: 'collect::<TestResults>', 9: 'GenomeScorer/IndividualGenerator',
              10: 'min/max/clamp [0 Score / 1 Error, x, y, z] -> [x.min(y), x.max(y), min(x,y), max(x,y), x.clamp(lo,hi) of (y,z), max of all, min of all]',
              11: 'clone_from [0 Score / 1 Error, target results, source results] -> [total, results.. , -7, the same through Vec::clone_from]',
-             12: 'EcIndividual over a single TestResult [[genome, [0 score/1 error, value]], ..]'}
+             12: 'EcIndividual over a single TestResult [[genome, [0 score/1 error, value]], ..]',
+             13: 'TestResults over f64 results [0 Score / 1 Error, [bit patterns]] -> [total bits, result bits..]',
+             14: 'Score / Error at another integer type [type 0 i8 / 1 u8 / 2 i32 / 3 u64 / 4 i128 / 5 usize, 0 Score / 1 Error, x, y]',
+             15: 'totals at another integer type [type, results] -> [Score total, Error total, results..]'}
 def c15_describe(inp, obs):
     return '%s on %s  -- observed [lt,le,gt,ge,eq,ne,cmp,partial_cmp] (cmp: -1 less, 0 equal, 1 greater, 2 n/a) or [total, results...]' % (C15_KINDS.get(inp[0]), inp[1:])
 PROPS['C15'] = dict(
@@ -314,9 +317,9 @@ PROPS['C15'] = dict(
     coq_targets=['theories/Props/C15.vo', 'theories/Corr/CorrC15.vo'],
     describe=c15_describe, bucket=lambda i, o: ['type=%s' % C15_KINDS.get(i[0])], classify=lambda i, o: 'order:%s' % C15_KINDS.get(i[0]),
     nontrivial=lambda i, o: True,
-    rule='all ordered pairs over {MIN, MIN+1, -2, -1, 0, 1, 2, MAX-1, MAX} for Score<i64>, Error<i64>, TestResult<i64,i64> (all four tag combinations) and singleton TestResults; random result vectors incl. empty, reversed, equal-total-different-cases; EcIndividual pairs with equal and different genomes; TestResults::from / collect (results and total fields read back); GenomeScorer and IndividualGenerator with a probe genome maker and an FnScorer; min / max (method and free function) / clamp / Iterator::max / Iterator::min over boundary triples; clone_from (directly and through Vec::clone_from); individuals scored by a single score-or-error TestResult (only partially ordered). All of <, <=, >, >=, ==, !=, cmp, partial_cmp are observed and compared with Order.v in coqc. Every case is non-trivial; distinct inputs counted.',
+    rule='all ordered pairs over {MIN, MIN+1, -2, -1, 0, 1, 2, MAX-1, MAX} for Score<i64>, Error<i64>, TestResult<i64,i64> (all four tag combinations) and singleton TestResults; random result vectors incl. empty, reversed, equal-total-different-cases; EcIndividual pairs with equal and different genomes; TestResults::from / collect (results and total fields read back); GenomeScorer and IndividualGenerator with a probe genome maker and an FnScorer; min / max (method and free function) / clamp / Iterator::max / Iterator::min over boundary triples; clone_from (directly and through Vec::clone_from); individuals scored by a single score-or-error TestResult (only partially ordered); the operators and totals at i8 / u8 / i32 / u64 / i128 / usize result types over the boundary values of each type; f64 results (vectors of 0..70 values of very different magnitudes, total compared bit for bit with the left-to-right sum computed with Coq primitive floats). All of <, <=, >, >=, ==, !=, cmp, partial_cmp are observed and compared with Order.v in coqc. Every case is non-trivial; distinct inputs counted.',
     trusted=[], assumptions=['partial sums stay inside i64 (Iterator::sum overflow is Rust arithmetic: panics in debug, wraps in release) - outside the property domain, see DESIGN C15'],
-    level_text='Theorems (Props/C15.v): Score is a lawful ascending total order, Error the reversed one (reflexive, antisymmetric, transitive, total, cmp b a = CompOpp (cmp a b)), the four comparison operators are consistent with the three-way comparison, a score is never comparable to an error, TestResults and individuals compare exactly as their totals (the genome is never consulted), the total is the sum of the cases kept in order, and scoring a genome yields that genome with the scorer result. Tied to the code by observing all eight operators on boundary and random values.',
+    level_text='Theorems (Props/C15.v): Score is a lawful ascending total order, Error the reversed one (reflexive, antisymmetric, transitive, total, cmp b a = CompOpp (cmp a b)), the four comparison operators are consistent with the three-way comparison, a score is never comparable to an error, TestResults and individuals compare exactly as their totals (the genome is never consulted), the total is the sum of the cases kept in order (for floating-point results: the left-to-right sum, which no regrouping of the cases reproduces), and scoring a genome yields that genome with the scorer result. Tied to the code by observing all eight operators on boundary and random values.',
     level_note='Trusted: Coq kernel; harness+driver. `==` on aggregates is structural (derived), ordering is by total - as the code and the property say.',
     technique='Coq order-law proofs over Z + exhaustive boundary-pair and random differential correspondence of all comparison operators',
     design_ref='DESIGN.md §6 C15',
@@ -400,14 +403,15 @@ PROPS['C17'] = dict(
 # C10
 C10_KINDS = ['TwoPointXo [Vec;2]', 'TwoPointXo (Vec,Vec)', 'TwoPointXo [Bitstring;2]', 'UniformXo [Vec;2]', 'UniformXo (Vec,Vec)', 'UniformXo [Bitstring;2]',
              'Bitstring::crossover_gene', 'Bitstring::crossover_segment', 'TwoPointXo (Bitstring,Bitstring)', 'UniformXo (Bitstring,Bitstring)',
-             'TwoPointXo on long complementary parents', 'UniformXo on long complementary parents']
+             'TwoPointXo on long complementary parents', 'UniformXo on long complementary parents',
+             'TwoPointXo [Vec<u8>;2]', 'UniformXo [Vec<u8>;2]', 'TwoPointXo (Vec<String>,Vec<String>)', 'UniformXo (Vec<String>,Vec<String>)']
 C10_FORMS = ['[Vec;2]', '(Vec,Vec)', '[Bitstring;2]', '(Bitstring,Bitstring)']
 def c10_describe(inp, obs):
     if inp[0] == 10:
         return 'TwoPointXo %s on parents 0^%d and 1^%d, %d seeded draws (seed %d): every child must take ONE contiguous segment from the second parent; observed [0, [[child, count]..]]' % (C10_FORMS[inp[3]], inp[4], inp[4], inp[6], inp[5])
     if inp[0] == 11:
         return 'UniformXo %s on parents 0^%d and 1^%d seen through positions %s, %d seeded draws (seed %d): every combination must occur; observed [0, [[genes at those positions, count]..]]' % (C10_FORMS[inp[3]], inp[4], inp[4], inp[5], inp[7], inp[6])
-    if inp[0] < 6 or inp[0] in (8, 9):
+    if inp[0] < 6 or inp[0] in (8, 9, 12, 13, 14, 15):
         return '%s on parents %s and %s, %d seeded draws (seed %d)%s; observed [0, [[child, count]..]] or [1]=error' % (
             C10_KINDS[inp[0]], inp[1], inp[2], inp[4], inp[3], ', every possible child must occur' if inp[5] else '')
     return '%s on %s / %s with %s; observed [0|1(error), first genome after, second genome after]' % (C10_KINDS[inp[0]], inp[1], inp[2], inp[3:])
@@ -421,7 +425,7 @@ PROPS['C10'] = dict(
     describe=c10_describe, classify=c10_classify,
     nontrivial=lambda i, o: len(i[1]) >= 1 or len(i[2]) >= 1 or i[0] >= 10,
     bucket=lambda i, o: ['op=%s' % C10_KINDS[i[0]], 'len=%d/%d' % ((len(i[1]), len(i[2])) if i[0] < 10 else (i[4], i[4])), 'outcome=%s' % ({0: 'ok', 1: 'error', -1: 'panic'}.get(o[0] if isinstance(o, list) and o else None, '?'))],
-    rule='TwoPointXo and UniformXo in all four argument forms ([Vec;2], (Vec,Vec), [Bitstring;2], (Bitstring,Bitstring)) on position-tagged (vectors) / complementary (bitstrings) parents of length 0..6, 3000 (quick) / 50000 (thorough) seeded draws each: every child must lie in the model support (exact, per draw) and - where the rarest child has probability >= 1/64 - every child of the support must have been drawn (all (n+1)(n+2)/2 segments incl. those touching either end; all 2^n masks for n <= 5); parents of different lengths both ways (error expected); complementary parents of 65..200 genes in all four forms - every two-point child must take one contiguous segment from the second parent, uniform children seen through positions a machine word apart / neighbouring / far apart must show every combination; crossover_gene / crossover_segment exhaustively over lengths 0..4 (5 thorough) of both genomes x indices 0..7 x all ranges incl. reversed and out-of-range, result and both genomes afterwards. Non-trivial: non-empty parents.',
+    rule='TwoPointXo and UniformXo in all four argument forms ([Vec;2], (Vec,Vec), [Bitstring;2], (Bitstring,Bitstring)), plus byte genes ([Vec<u8>;2]) and string genes ((Vec<String>,Vec<String>)) through the generic vector impls, on position-tagged (vectors) / complementary (bitstrings) parents of length 0..6, 3000 (quick) / 50000 (thorough) seeded draws each: every child must lie in the model support (exact, per draw) and - where the rarest child has probability >= 1/64 - every child of the support must have been drawn (all (n+1)(n+2)/2 segments incl. those touching either end; all 2^n masks for n <= 5); parents of different lengths both ways (error expected); complementary parents of 65..200 genes in all four forms - every two-point child must take one contiguous segment from the second parent, uniform children seen through positions a machine word apart / neighbouring / far apart must show every combination; crossover_gene / crossover_segment exhaustively over lengths 0..4 (5 thorough) of both genomes x indices 0..7 x all ranges incl. reversed and out-of-range, result and both genomes afterwards. Every returned error is rendered (message, debug form, source chain). Everything is repeated in the release build. Non-trivial: non-empty parents.',
     trusted=['rand::Rng::random_range / random::<bool> as oracles: only their support is used here'],
     assumptions=['the cut-point DISTRIBUTION is not pinned by the property (only which segments can occur)', 'completeness of the support is judged from a finite sample: miss probability < 1e-20 per case'],
     level_text='Theorems (Props/C10.v) about the support model: a two-point child has the parents length, is position-wise parental and takes ONE contiguous segment from the second parent; every segment 0 <= lo <= hi <= n is possible (both ends); empty parents give the empty child; uniform children are position-wise parental and every mask is possible; unequal lengths are errors; the exchange primitives swap exactly the addressed genes or report an error (reversed / out-of-range), never panic. Tied to the code by exact per-draw support membership, observed completeness of the support, and exhaustive exchange arguments.',
@@ -580,7 +584,7 @@ _SEL_COMMON = dict(corr='CorrSelect', judge='(judge_cases judge)', describe=sel_
 PROPS['C06'] = dict(_SEL_COMMON, post_batch=make_stat_post('C06', sel_obs_code, sel_hist_of),
     coq_targets=['theories/Props/C06.vo', 'theories/Corr/CorrSelect.vo'],
     nontrivial=lambda i, o: len(i[2][1]) >= 1,
-    rule='populations (empty, singleton, all-equal, duplicate-laden, ragged with missing cases, random; up to 8 individuals) x selector configurations (best, worst, random, tournament sizes 1..n+2, lexicase case counts 0..4 - smaller/equal/larger than the results available -, weighted trees of depth <= 2 and dynamic lists, also nested in each other, weights incl. 0) x 60 (quick) / 400 (thorough) seeded draws. Each returned reference is located in the population by pointer identity; every observed outcome (index class or documented error) must have positive probability in the model law computed in coqc, and frequencies are compared as well. Non-trivial: non-empty population.',
+    rule='populations (empty, singleton, all-equal, duplicate-laden, ragged with missing cases, random; up to 8 individuals; and one of 300 individuals under best / worst / random / tournament / lexicase / weighted combinations) x selector configurations (best, worst, random, tournament sizes 1..n+2, lexicase case counts 0..4 - smaller/equal/larger than the results available -, weighted trees of depth <= 2 and dynamic lists, also nested in each other, weights incl. 0) x 60 (quick) / 400 (thorough) seeded draws. Each returned reference is located in the population by pointer identity; every observed outcome (index class or documented error) must have positive probability in the model law computed in coqc, and frequencies are compared as well. Non-trivial: non-empty population.',
     assumptions=['errors are classified through From conversions of the library error enums (no string matching)'],
     level_text='Theorems (Props/C06.v) by induction over a deep embedding of ALL selector combinations (best, worst, random, tournament, lexicase, weighted leaves and pairs nested arbitrarily, dynamic lists): every selected index is an index of the given population, an empty-population error occurs only for an empty population, and the selection distribution is total (mass 1: no stuck or panicking outcome exists in the model). An error is reported only in its documented situation, for every combination (C06_documented), and those situations are reported with certainty. Tied to the code by exact support membership of every draw (pointer identity).',
     level_note='Trusted: Coq kernel; harness+driver; rand primitives as oracles.',
@@ -589,7 +593,7 @@ PROPS['C06'] = dict(_SEL_COMMON, post_batch=make_stat_post('C06', sel_obs_code, 
 PROPS['C07'] = dict(_SEL_COMMON, post_batch=make_stat_post('C07', sel_obs_code, sel_hist_of),
     coq_targets=['theories/Props/C07.vo', 'theories/Corr/CorrSelect.vo'],
     nontrivial=lambda i, o: len(i[2][1]) >= 2,
-    rule='populations of 1..7 single-case individuals, with and without ties, both polarities; every tournament size k = 1..n with 20000 (quick) / 400000 (thorough) seeded draws of the real Tournament::select, frequencies per tie class against the law evaluated from the model definition (uniform k-subsets, best of the subset) - not from the closed form, which is the theorem; Best and Worst: membership in the maximal / minimal class. Non-trivial: at least two individuals.',
+    rule='populations of 1..7 single-case individuals, with and without ties, both polarities; every tournament size k = 1..n with 20000 (quick) / 400000 (thorough) seeded draws of the real Tournament::select, frequencies per tie class against the law evaluated from the model definition (uniform k-subsets, best of the subset) - not from the closed form, which is the theorem; Best and Worst: membership in the maximal / minimal class; multi-case individuals whose vectors disagree with their totals, and individuals evaluated on different numbers of cases; populations of 40 and 300 (thorough: 1000) individuals with pairwise distinct totals under tournaments of size 1, 2, 3, 7 and n - far too many k-subsets to enumerate - judged by the rank law C(r-1,k-1)/C(n,k) of C07_rank_law, evaluated with the multiplicative binomial of Ec/BinomN.v (proved equal to the Pascal one). The measured selections run on another thread than the one that built the selector value. Non-trivial: at least two individuals.',
     assumptions=['ties inside a tournament are resolved in an unspecified way: comparison is per tie class'],
     level_text='Theorems (Props/C07.v): best/worst return a maximal/minimal individual; every drawn tournament is a k-sublist of the population (distinct individuals), all C(n,k) of them equally likely; the winner is maximal in its tournament, hence at least as good as k-1 others; the CDF of the winner including ties is C(#{<= v}, k) / C(n, k); size 1 is uniform choice and size n is best selection. (both as theorems: C07_size_1_is_uniform, C07_size_n_is_best). Tied to the code by exact support checks and seeded frequencies with an explicit error budget.',
     level_note='Trusted: Coq kernel; harness+driver; choose_multiple uniform over k-subsets (oracle).',
@@ -598,7 +602,7 @@ PROPS['C07'] = dict(_SEL_COMMON, post_batch=make_stat_post('C07', sel_obs_code, 
 PROPS['C08'] = dict(_SEL_COMMON, post_batch=make_stat_post('C08', sel_obs_code, sel_hist_of),
     coq_targets=['theories/Props/C08.vo', 'theories/Corr/CorrSelect.vo'],
     nontrivial=lambda i, o: len(i[2][1]) >= 2 and i[2][2][1] >= 1,
-    rule='result matrices up to 6 individuals x 4 cases with ties and duplicated individuals, zero cases, single individual, both polarities (Score / Error), configured case count = and < the results available; exact law by enumerating all case orders in coqc (<= 24); 20000 (quick) / 400000 (thorough) seeded draws; support both ways (never a zero-probability winner; every individual with noticeable probability is seen) and per-individual frequencies. Non-trivial: >= 2 individuals and >= 1 case.',
+    rule='result matrices up to 6 individuals x 4 cases with ties and duplicated individuals, zero cases, single individual, both polarities (Score / Error), configured case count = and < the results available, and 6 and 7 (thorough: 8) cases; exact law by enumerating all case orders in coqc (up to 5040; thorough 40320); matrices with 12, 20 and 50 cases in which every case has exactly one best individual, judged by the closed form of C08_decisive_cases (the first case of the order decides: #{cases whose best is i} / #cases); 20000 (quick) / 400000 (thorough) seeded draws; support both ways (never a zero-probability winner; every individual with noticeable probability is seen) and per-individual frequencies. Non-trivial: >= 2 individuals and >= 1 case.',
     assumptions=['configured case counts not exceeding the results available (the property quantifier); larger counts are exercised under C06'],
     level_text='Theorems (Props/C08.v): lexicase filtering keeps, at each case, exactly the candidates with the best result on it (early exit included); a survivor is never Pareto-dominated on the considered cases (for either polarity: the proof is over the key order); with zero cases or a single individual the choice is uniform / that individual. The selection probability is by definition the average over case orders of 1/|survivors|. Tied to the code by exact support checks and seeded frequencies.',
     level_note='Trusted: Coq kernel; harness+driver; shuffle uniform over permutations (oracle).',
@@ -703,11 +707,11 @@ PROPS['C09'] = dict(
     nontrivial=lambda i, o: len(i[1]) >= 1,
     classify=lambda i, o: ('serial' if i[0] % 100 == 0 else 'parallel') + ('/genome-scorer' if i[0] >= 100 else ''),
     bucket=lambda i, o: ['mode=%s' % (('serial' if i[0] % 100 == 0 else 'par/%d' % (i[0] % 100)) + ('/genome-scorer' if i[0] >= 100 else '')), 'size=%d' % len(i[1]), 'failure=%s' % ('injected' if 0 <= i[2] < len(i[1]) else 'none')],
-    rule='Generation::serial_next and par_next (rayon pools of 1, 2, 3, 4, 8, 16 threads, 6 / 100 repetitions each) over populations of size 0, 1, 2, 7, 64 with an instrumented child maker that records the address and contents of the population it is shown and two words drawn from the generator it is handed, and fails at a chosen call; failure injected at every call position (sampled for size 64), at a position beyond the last call, and not at all. Judged in coqc: exactly n invocations on success, every invocation saw the generation\'s own, unmodified population, all drawn words pairwise distinct, the new population is exactly the children (in call order for serial - computed by the model serial_next from the logged per-call behaviour - as a multiset for parallel), on failure the population equals the old one, the error is the failing child\'s, and serial stepping stops right there. Non-trivial: non-empty population.',
+    rule='Generation::serial_next and par_next (rayon pools of 1, 2, 3, 4, 8, 16 threads, 6 / 100 repetitions each) over populations (Vec; also BTreeSet whose children collide so that the size changes between the steps of one Generation value, and VecDeque) of size 0, 1, 2, 7, 64 with an instrumented child maker that records the address and contents of the population it is shown and two words drawn from the generator it is handed, and fails at a chosen call; failure injected at every call position (sampled for size 64), at a position beyond the last call, and not at all. Judged in coqc: exactly n invocations on success, every invocation saw the generation\'s own, unmodified population, all drawn words pairwise distinct, the new population is exactly the children (in call order for serial - computed by the model serial_next from the logged per-call behaviour - as a multiset for parallel), on failure the population equals the old one, the error is the failing child\'s, and serial stepping stops right there. Non-trivial: non-empty population.',
     trusted=['thread interleavings are SAMPLED, not enumerated; that children cannot mutate the shared population is Rust\'s &P / Sync typing (trusted)',
              'the randomness of Generation is rand::rng() (thread RNG): not seedable, so the judge is relational over the recorded words'],
     assumptions=['distinctness of 64-bit words drawn by different children stands for "own live randomness" (collision probability negligible)'],
-    level_text='Theorems (Props/C09.v) for an ARBITRARY child-making operator: serial stepping yields as many children as the population had and installs exactly them; on failure the population is exactly the old one; every call is made on the old population and is handed the generator state the previous call left (consecutive disjoint stretches of the stream), and nothing is made after a failure; the parallel relation (independent generator per child, any schedule) gives the same length / atomicity guarantees. The new population is exactly what the calls returned, in call order; the error reported is that of the last call made. Tied to the code by an instrumented child maker under serial_next and par_next with failure at every position and several pool sizes.',
+    level_text='Theorems (Props/C09.v) for an ARBITRARY child-making operator: serial stepping yields as many children as the population had and installs exactly them; on failure the population is exactly the old one; every call is made on the old population and is handed the generator state the previous call left (consecutive disjoint stretches of the stream), and nothing is made after a failure; the parallel relation (independent generator per child, any schedule) gives the same length / atomicity guarantees. The new population is exactly what the calls returned, in call order; the error reported is that of the last call made. For ANY population type (a size and a way to collect the children): exactly size-many children made from the old population are collected, a failure changes nothing, and over several steps of one Generation value every step follows the size the population has at that step (for an ordered set, modelled by sort_dedup - exactly the distinct children, sorted, never more than were made - that size changes from step to step). Tied to the code by an instrumented child maker under serial_next and par_next with failure at every position and several pool sizes.',
     level_note='Trusted: Coq kernel; harness+driver; rayon scheduling and Rust aliasing guarantees (schedules sampled).',
     technique='Coq theorems over the repeat combinator (atomic replace, call chain) + instrumented child-maker correspondence under serial and rayon-parallel stepping',
     design_ref='DESIGN.md §6 C09')
@@ -751,10 +755,10 @@ PROPS['C16'] = dict(
     describe=c16_describe, no_shrink=True, nontrivial=lambda i, o: True,
     classify=lambda i, o: ('op:%s' % C16_OPS[i[1]]) if i[0] == 0 else ('push-input-order' if i[0] == 1 else 'push-many-names' if i[0] == 2 else 'push-colliding-names'),
     bucket=lambda i, o: [('op=%s' % C16_OPS[i[1]]) if i[0] == 0 else ('push permutations=%d' % i[3] if i[0] == 1 else 'push inputs=%d' % i[1] if i[0] == 2 else 'push colliding names')],
-    rule='40 selectors, mutators, recombinators, generators and compositions (selectors also on populations of 8..47 distinct individuals with many ties - where hash order or a cache could decide; vector genomes that are equal as values but differ in spare capacity) exported by the three crates (table in harness/src/c16.rs) x 12 (quick) / 200 (thorough) seeds: a counting loop evaluated for 1.2 million steps (about a second of wall-clock time) must equal the model run; three consecutive calls from (A) a fresh operator value, (B) another fresh value with a generator cloned from the same seed, (C) a value that was already used five times with another generator - results and the next word of the generator must all coincide (a consult of the thread RNG, global state, or a cache inside the operator shows up as a difference); one entry interleaves two operators on one generator; four entries give the used value a PAST of other kinds of calls (UMAD with distinct empty-genome rate on empty / non-empty genomes in the opposite order; a dynamic weighted selector that was used between its builder calls, also with a zero first weight). Push: programs reading 1, 3, 1000 and 3000 (thorough: 20000) distinctly named inputs, declared forwards, backwards and shuffled, against the closed-form result (length and hash of the int stack); 15 pairs of distinct names that collide under common short hash functions (FNV-1a 32, CRC-32, Java hashCode, djb2) or differ only in case / spacing / Unicode normalisation, bound to different values and declared in either order; 80 (quick) / 600 (thorough) random nested programs with 2-3 bound inputs, evaluated under EVERY permutation of the input declarations and twice from each built state: all runs must coincide and equal the model run (stacks, output bytes, outcome).',
+    rule='40 selectors, mutators, recombinators, generators and compositions (selectors also on populations of 8..47 distinct individuals with many ties - where hash order or a cache could decide; vector genomes that are equal as values but differ in spare capacity) exported by the three crates (table in harness/src/c16.rs) x 12 (quick) / 200 (thorough) seeds: a counting loop evaluated for 1.2 million steps (about a second of wall-clock time) must equal the model run; three consecutive calls from (A) a fresh operator value, (B) another fresh value with a generator cloned from the same seed - built and used on ANOTHER THREAD -, (C) a value that was already used five times with another generator - results and the next word of the generator must all coincide (a consult of the thread RNG, global state, or a cache inside the operator shows up as a difference); one entry interleaves two operators on one generator; four entries give the used value a PAST of other kinds of calls (UMAD with distinct empty-genome rate on empty / non-empty genomes in the opposite order; a dynamic weighted selector that was used between its builder calls, also with a zero first weight). Push: programs reading 1, 3, 1000 and 3000 (thorough: 20000) distinctly named inputs, declared forwards, backwards and shuffled, against the closed-form result (length and hash of the int stack); 15 pairs of distinct names that collide under common short hash functions (FNV-1a 32, CRC-32, Java hashCode, djb2) or differ only in case / spacing / Unicode normalisation, bound to different values and declared in either order; 80 (quick) / 600 (thorough) random nested programs with 2-3 bound inputs, evaluated under EVERY permutation of the input declarations and twice from each built state: all runs must coincide and equal the model run (stacks, output bytes, outcome).',
     trusted=['that equal observable results and an equal next word mean equal generator states (SplitMix64 state = one word)'],
     assumptions=['"the code is a function of its arguments" is decided code-against-code: a Gallina model is deterministic by construction and cannot carry that claim'],
-    level_text='Theorems (Props/C16.v): named inputs resolve independently of declaration order (lookup is invariant under permutation of a duplicate-free list) and therefore the whole evaluation of any program is - same stacks, output, limits, outcome, step count; combinators have no hidden state (the threaded state after a composition is what its parts left). Stream locality: an operator that uses only the generator it is handed depends only on the consumed stretch of the stream; drawing is local and every combinator preserves locality, so equal generator states give equal results and equal positions for every composition (C16_combinators_preserve_locality, C16_equal_generator_states_equal_results). The remaining half - no randomness or state other than the generator handed in - is decided by double runs from cloned generators on fresh and on used operator values, and by permuting input declarations.',
+    level_text='Theorems (Props/C16.v): named inputs resolve independently of declaration order (lookup is invariant under permutation of a duplicate-free list) and therefore the whole evaluation of any program is - same stacks, output, limits, outcome, step count; a program that reads any number of distinctly named integer inputs once each ends, for every declaration order, with exactly their values on the int stack (C16_reads_any_declaration_order - the closed form the many-names cases are compared with; for up to 3000 inputs the judge also runs the interpreter model on that program); combinators have no hidden state (the threaded state after a composition is what its parts left). Stream locality: an operator that uses only the generator it is handed depends only on the consumed stretch of the stream; drawing is local and every combinator preserves locality, so equal generator states give equal results and equal positions for every composition (C16_combinators_preserve_locality, C16_equal_generator_states_equal_results). The remaining half - no randomness or state other than the generator handed in - is decided by double runs from cloned generators on fresh and on used operator values, and by permuting input declarations.',
     level_note='Proof for input-order independence and state threading; correspondence-only (code against code) for "nothing else influences the outcome". Trusted: Coq kernel; harness+driver.',
     technique='Coq simulation proof (evaluation invariant under permutation of input declarations) + code-against-code double-run / reuse / permutation correspondence',
     design_ref='DESIGN.md §6 C16')
@@ -939,7 +943,7 @@ PROPS['C19'] = dict(
     rule='(run) 200 compiled-in well-typed builder call sequences - 140 on PushState, 60 on a second struct the macro is applied to in the harness (other field names, builder_name / instruction_name options, two value stacks) - with per-stack and global sizes in every legal order, repeated value loads, programs, inputs declared in various orders and re-declared, step limits: stack contents (top first), maximum sizes, step limit, the program order on the exec stack and the resolution of every declared input are compared with Builder.brun in coqc, as is the overflow error; the derived accessors are exercised on PushState through HasStack. (compile) a fixed set of about 130 sequences (each also cut off right after the call in question) isolating each rule of the type-state (a size change after a load with nothing else loaded - for the exec stack after a program / after the decision for no program, for every value stack after values -, each required step left out, a second program decision) next to their well-typed neighbours, plus 25 (quick) / 150 (thorough) random well-typed sequences and their ill-typed neighbours (each required step omitted, a resize after a load, values before any size, a second program decision, a global size after data, no build) and raw random sequences, each compiled as its own binary against the current tree with cargo check: rustc accepts it <=> Builder.typed.',
     trusted=['rustc / cargo check as the oracle of what compiles (differential compile probes)', 'the sequence generators and Rust emitters (driver/c19gen.py, harness/gen/gen_c19.py)'],
     assumptions=['derived HasStack accessors are exercised on PushState only (they do not compile downstream for >= 2 stacks: observation O1 in DESIGN)', 'the macro attribute parser is not modelled'],
-    level_text='Theorems (Props/C19.v): the type-state machine transcribed from the generated trait bounds admits a build only after the global stack size, a program decision and a step limit; after values were loaded into a stack neither its own nor the global size can be set; typed sequences are prefix closed. Built state: loading puts the first supplied value on top and stacks up over repeated loads, more values / program elements than the maximum is an overflow and nothing is built, the program\'s first element is on top of exec, the maximum last set (globally or individually) wins, named inputs resolve to their last declaration independently of declaration order. Every state a well-typed sequence builds has every stack within its maximum (C19_built_state_within_maxima). Tied to the code by compiled-in call sequences on two macro-generated structs and by differential compile probes (compiles <=> typed).',
+    level_text='Theorems (Props/C19.v): the type-state machine transcribed from the generated trait bounds admits a build only after the global stack size, a program decision and a step limit; after values were loaded into a stack neither its own nor the global size can be set, and after the program decision (the values of the exec stack) neither the global size nor the decision again; typed sequences are prefix closed. Built state: loading puts the first supplied value on top and stacks up over repeated loads, more values / program elements than the maximum is an overflow and nothing is built, the program\'s first element is on top of exec, the maximum last set (globally or individually) wins, named inputs resolve to their last declaration independently of declaration order. Every state a well-typed sequence builds has every stack within its maximum (C19_built_state_within_maxima). Tied to the code by compiled-in call sequences on two macro-generated structs and by differential compile probes (compiles <=> typed).',
     level_note='Trusted: Coq kernel; harness+driver+generators; rustc as compile oracle.',
     technique='Coq theorems over a type-state automaton and builder semantics + compiled-in call sequences and differential cargo-check compile probes',
     design_ref='DESIGN.md §8 C19')
